@@ -91,10 +91,16 @@ func unitCmd(args []string) {
 			if *quiet && ob.OK() {
 				continue
 			}
-			fmt.Println(ob.String())
+			if *quiet {
+				fmt.Printf("%s %s\n", ob.Status, strings.TrimPrefix(ob.Name, name+"/"))
+			} else {
+				fmt.Println(ob.String())
+			}
 			if !ob.OK() {
 				bad++
-				fmt.Println("    goal:", ob.Goal)
+				if !*quiet {
+					fmt.Println("    goal:", ob.Goal)
+				}
 				if ob.Model != "" && !*quiet {
 					m := ob.Model
 					if len(m) > 3000 {
